@@ -130,14 +130,21 @@ class XmlMetaBuilder:
             # The typing module shares one forward reference object between
             # all the modules that spell an annotation the same way, its
             # evaluation is not safe to run from two threads at once
-            class_vars = list(
-                self.build_vars(
-                    clazz,
-                    meta.namespace,
-                    meta.element_name_generator,
-                    meta.attribute_name_generator,
+            try:
+                class_vars = list(
+                    self.build_vars(
+                        clazz,
+                        meta.namespace,
+                        meta.element_name_generator,
+                        meta.attribute_name_generator,
+                    )
                 )
-            )
+            except (TypeError, KeyError) as e:
+                # Annotations or field metadata in the convention of some
+                # other library, a document can name any loaded dataclass
+                raise XmlContextError(
+                    f"Failed to build the binding metadata of {clazz.__qualname__}: {e}"
+                ) from e
 
         attributes = {}
         elements: dict[str, list[XmlVar]] = defaultdict(list)
